@@ -66,6 +66,7 @@ typedef struct { const char *obj; size_t len; } verif_str_t;
 extern verif_str_t verif_str[VERIF_NSTR];
 extern int verif_nstr;
 void verif_register_string(const char *p, size_t len);
+void verif_ghost_init(void);
 
 /* nondeterminism */
 int nondet_int(void); unsigned nondet_uint(void); size_t nondet_size_t(void); long nondet_long(void);
